@@ -117,6 +117,8 @@ func genResponse(rng *Rng, wf bool) []byte {
 		var tr [][2]string
 		if rng.Intn(3) == 0 {
 			tr = append(tr, [2]string{"X-T1", "v1"})
+		} else if rng.Intn(8) == 0 {
+			tr = append(tr, [2]string{pick(rng, []string{"0", "0a", "00"}), pick(rng, []string{"x", "b:c"})})
 		}
 		b = append(b, encodeChunked(rng, body, tr)...)
 	default:
